@@ -153,7 +153,7 @@ theorem hard_ts_ge_clock {c : Cfg} (hc : Proved c) {nb : BitVec 8} (hl : LayoutO
 
 /-- `NewNode` with the repaired accessor stores the configured epoch -/
 theorem nodeEpoch_milli {c : Cfg} (hc : Proved c) (epochG : BitVec 64) : nodeEpoch c epochG = epochG := by
-  unfold nodeEpoch; rw [hc.2]; simp only [accMs, accWord, BitVec.ofInt_toInt]
+  unfold nodeEpoch; rw [hc.2.1]; simp only [accMs, accWord, BitVec.ofInt_toInt]
 
 /-- a node built from a non-negative id that carries its own node number starts exactly at that id -/
 theorem newNode_seed {c : Cfg} {nb : BitVec 8} (hl : LayoutOk nb) (nal : Bool) {epochG node min : BitVec 64} {st : HState}
@@ -311,6 +311,52 @@ theorem mono_strictly_increasing {nb : BitVec 8} (hl : LayoutOk nb) (nal : Bool)
 theorem witness_mono_decreasing_reading :
     monoRun 10#8 false ⟨0#64, 1#64, 0#64⟩ [(5#64, 0#64), (3#64, 0#64)] = some [20975616#64, 12587008#64] := by decide
 
+/-! ### configuration through `Setup` -/
+
+/-- whatever mode is passed, `Setup` leaves one of the three node widths: every theorem's `LayoutOk` holds of a
+    configuration made through the package's own options -/
+theorem setup_layout_ok (c : Cfg) (epochMs : BitVec 64) (mode : BitVec 8) (lowest : Bool) :
+    LayoutOk (setupCfg c epochMs mode lowest).2.1 := by
+  unfold setupCfg LayoutOk
+  simp only
+  split
+  · rename_i h
+    simp only [Bool.or_eq_true, beq_iff_eq] at h
+    rcases h with h | h
+    · left; exact h
+    · right; left; exact h
+  · right; right; rfl
+
+/-- with the millisecond accessor `Setup(UseEpoch(t))` stores the epoch asked for — any epoch -/
+theorem setup_epoch_milli {c : Cfg} (hc : Proved c) (epochMs : BitVec 64) (mode : BitVec 8) (lowest : Bool) :
+    (setupCfg c epochMs mode lowest).1 = epochMs ∧ (setupCfg c epochMs mode lowest).2.2 = lowest := by
+  unfold setupCfg; rw [hc.2.2]; simp only [accMs, accWord, BitVec.ofInt_toInt, and_self]
+
+/-- `UseEpoch` through `UnixNano` (finding of the audit, same root cause as F06): the epoch 2300-01-01 is stored as
+    a negative number of milliseconds -/
+theorem witness_unixNano_useEpoch :
+    (setupCfg ⟨.unixMilli, .unixMilli, .unixNano⟩ 10413792000000#64 10#8 false).1.toInt = -8032952073709 := by decide
+
+/-! ### beyond the timestamp width (the hypothesis `InWidth` is necessary) -/
+
+/-- **known limit of the format**: a clock reading 2^41 ms (69.7 years) after the epoch — a "far future" reading — under
+    the Node1024 layout: `<<` shifts the timestamp into the sign bit, and the id is *lower* than the one issued before.
+    Every accessor configuration; `InWidth` fails for this run, the other hypotheses hold. -/
+theorem witness_clock_beyond_width :
+    hardRun ⟨.unixMilli, .unixMilli, .unixMilli⟩ 10#8 false ⟨1609430400000#64, 0#64, 1#64, 0#64⟩
+      [⟨1700000000000, 0⟩, ⟨3808453655552, 0⟩] = [379876435558404096#64, BitVec.ofInt 64 (-9223372036854771712)]
+    ∧ WF 10#8 ⟨1609430400000#64, 0#64, 1#64, 0#64⟩
+    ∧ ¬ InWidth 10#8 false ⟨1609430400000#64, 0#64, 1#64, 0#64⟩ [90569600000#64, 2199023255552#64] :=
+  ⟨by decide, ⟨by decide, by decide, by decide⟩, by decide⟩
+
+/-- so strict monotonicity does not hold for all clock histories without the width hypothesis -/
+theorem not_increasing_beyond_width :
+    ¬ (∀ (nows : List (BitVec 64)) (st : HState), WF 10#8 st →
+        (coreRun 10#8 false st nows).Pairwise (fun a b => a.toInt < b.toInt)) := by
+  intro h
+  have := h [90569600000#64, 2199023255552#64] ⟨1609430400000#64, 0#64, 1#64, 0#64⟩ ⟨by decide, by decide, by decide⟩
+  revert this; decide
+
 /-! ### non-vacuity -/
 
 /-- a state in the middle of a millisecond, Node1024 layout, and a clock that stalls, steps back and jumps -/
@@ -321,7 +367,13 @@ example : coreRun 10#8 false ⟨1609430400000#64, 90569600000#64, 1023#64, 4094#
       [90569600000#64, 90569600000#64, 90569599000#64, 0#64, 2199023255551#64] =
     [379876435562594303#64, 379876435566784512#64, 379876435566784513#64, 379876435566784514#64, 9223372036854771712#64] := by decide
 example : LayoutOk 8#8 ∧ LayoutOk 9#8 ∧ LayoutOk 10#8 := by decide
-example : Proved ⟨.unixMilli, .unixMilli⟩ := by decide
+example : Proved ⟨.unixMilli, .unixMilli, .unixMilli⟩ := by decide
+/-- hypotheses of `hard_ts_ge_clock` and `hard_restart_above` together: a node restarted with an id of its own, readings
+    before and after it -/
+example : newNode ⟨.unixMilli, .unixMilli, .unixMilli⟩ 10#8 false 1609430400000#64 1023#64 379876435562594303#64 =
+      some ⟨1609430400000#64, 90569600000#64, 1023#64, 4095#64⟩
+    ∧ (0 : Int) ≤ (379876435562594303#64).toInt ∧ (idFields 379876435562594303#64 10#8 false).2.1 = 1023#64
+    ∧ ClockOk 1609430400000#64 ⟨1700000000000, 0⟩ ∧ ClockOk 1609430400000#64 ⟨1600000000000, 0⟩ := by decide
 example : NanoBelowMax 100#64 [50#64, 100#64, 9223372036854775806#64, 0#64] := by decide
 example : nanoRun 100#64 [50#64, 100#64, 103#64, 103#64] = [101#64, 102#64, 103#64, 104#64] := by decide
 example : MWF 10#8 ⟨7#64, 1#64, 4095#64⟩ := ⟨by decide, by decide, by decide⟩
@@ -333,14 +385,14 @@ example : MonoOk 10#8 false ⟨7#64, 1#64, 4095#64⟩ [(7#64, 8#64), (8#64, 0#64
 /-- `UnixNano()/MsDivNs`: Node256 layout (43-bit timestamp, good until 2299), fresh node 3, the clock reads
     2270-01-01T00:00:00Z — inside the width — and the id comes out stamped with the epoch (timestamp 0) -/
 theorem witness_unixNano_stamp_before_clock :
-    (hardGen ⟨.unixNano, .unixNano⟩ 8#8 false ⟨1609430400000#64, 0#64, 3#64, 0#64⟩ ⟨9467020800000, 0⟩).2 = 12289#64
+    (hardGen ⟨.unixNano, .unixNano, .unixNano⟩ 8#8 false ⟨1609430400000#64, 0#64, 3#64, 0#64⟩ ⟨9467020800000, 0⟩).2 = 12289#64
     ∧ idFields 12289#64 8#8 false = (0#64, 3#64, 1#64) := by decide
 
 /-- so `hard_ts_ge_clock` is false of that configuration -/
 theorem not_ts_ge_clock_unixNano :
     ¬ (∀ (ts : List Clock) (st : HState), WF 8#8 st → (∀ t ∈ ts, ClockOk st.epoch t) →
-        InWidth 8#8 false st (ts.map (fun t => hardNow ⟨.unixNano, .unixNano⟩ st.epoch (accWord .unixNano t))) →
-        ∀ p ∈ List.zip ts (hardRun ⟨.unixNano, .unixNano⟩ 8#8 false st ts),
+        InWidth 8#8 false st (ts.map (fun t => hardNow ⟨.unixNano, .unixNano, .unixNano⟩ st.epoch (accWord .unixNano t))) →
+        ∀ p ∈ List.zip ts (hardRun ⟨.unixNano, .unixNano, .unixNano⟩ 8#8 false st ts),
           p.1.ms - st.epoch.toInt ≤ (idFields p.2 8#8 false).1.toInt) := by
   intro h
   have := h [⟨9467020800000, 0⟩] ⟨1609430400000#64, 0#64, 3#64, 0#64⟩ ⟨by decide, by decide, by decide⟩
@@ -350,6 +402,6 @@ theorem not_ts_ge_clock_unixNano :
 
 /-- `NewNode`'s conversion of `_epoch` through `UnixNano`: an epoch of 2300-01-01 is stored as a different number -/
 theorem witness_unixNano_epoch :
-    nodeEpoch ⟨.unixMilli, .unixNano⟩ 10413792000000#64 ≠ 10413792000000#64 := by decide
+    nodeEpoch ⟨.unixMilli, .unixNano, .unixMilli⟩ 10413792000000#64 ≠ 10413792000000#64 := by decide
 
 end Nv.C06
